@@ -19,19 +19,22 @@ RULE = ('Generated: (A) planet mass/radius, 1-200 layers, decreasing level press
         ' After the first evaluation the pressure range of simple-profile models is moved through the fitting parameters and levels, density and the whole hydrostatic structure are judged again.')
 ASSUMPTIONS = [
     'G = 6.6743e-11, k_B = 1.380649e-23, MJUP = GM_J/G with GM_J = 1.2668653e17, RJUP = 71492 km typed in',
-    'level spacing >= 1e-9 decades (below that float64 cannot represent strictly decreasing levels)',
+    'level spacing >= 1e-9 decades, or levels built 1-8 units in the last place apart (strict increase of altitude is asserted there; the values only to the conditioning of ln(P_lower/P_upper))',
     'array pressure profiles: the hydrostatic clauses are asserted when the levels the code derives from the array are strictly decreasing (the statement quantifies over decreasing levels)',
     'rtol 1e-10 on altitude/gravity/scale height against the pure-python reference',
 ]
-REQUIRED = {'part:function': 0.2, 'part:model-simple': 0.2, 'part:model-array': 0.08, 'layers:1': 0.01}
+REQUIRED = {'array:from-file': 0.01, 'array:from-file,top-first': 0.01, 'levels:ulp-spaced': 0.025, 'part:function': 0.2, 'part:model-simple': 0.2, 'part:model-array': 0.08, 'layers:1': 0.01}
 
 MJUP = 1.2668653e17 / 6.6743e-11
 RJUP = 71492000.0
 
 
+STRATA = {'model-simple': 2, 'function': 2, 'model-array': 1}
+
+
 @st.composite
-def _case(draw):
-    part = draw(S.pick(['model-simple', 'function', 'model-array', 'function', 'model-simple']))
+def _case(draw, part=None):
+    part = part or draw(S.pick(['model-simple', 'function', 'model-array', 'function', 'model-simple']))
     c = {'part': part}
     if part == 'function':
         n = draw(st.sampled_from([1, 2, 3, 5, 7, 12, 30, 64, 100, 200]))
@@ -39,7 +42,8 @@ def _case(draw):
         c['mass'] = draw(st.floats(0.01, 20.0))
         c['radius'] = draw(st.floats(0.05, 3.0))
         c['lp0'] = draw(st.floats(2.0, 8.0))
-        c['spacing'] = draw(st.sampled_from(['log', 'arbitrary']))
+        c['spacing'] = draw(st.sampled_from(['log', 'arbitrary', 'log', 'arbitrary', 'ulp']))
+        c['ulps'] = draw(st.lists(S.ints(1, 8), min_size=n, max_size=n)) if c['spacing'] == 'ulp' else []
         c['steps'] = draw(st.lists(st.floats(1e-9, 1.0), min_size=n, max_size=n)) if c['spacing'] == 'arbitrary' else []
         c['decades'] = draw(st.floats(1e-6, 12.0))
         k = draw(S.ints(1, 5))
@@ -49,13 +53,18 @@ def _case(draw):
         c['world'] = draw(S.world(layers=(1, 60), nwn=(2, 4), max_active=2, extras=('CIA',), mags=['mixed']))
         c['family'] = draw(st.sampled_from(['transmission', 'emission']))
         c['steps'] = draw(st.lists(st.floats(0.02, 1.0), min_size=60, max_size=60)) if part == 'model-array' else []
-        c['top_first'] = draw(st.booleans())
+        # the array handed over directly, or read from a text file (own column, header rows, unit); listed surface-first or
+        # top-first with reverse=True (one joint draw: independent draws left the combination at under 1% of cases)
+        src = draw(S.pick([(None, False), ('Pa', True), (None, True), ('bar', False), ('Pa', False), ('bar', True), (None, True)]))
+        c['top_first'] = src[1]
+        c['from_file'] = src[0] if part == 'model-array' else None
+        c['file_layout'] = [draw(S.ints(0, 2)), draw(S.ints(0, 2))]
         c['planet_fac'] = [draw(st.floats(1.2, 2.5)), draw(st.floats(0.6, 0.95))]
     return c
 
 
-def strategy(tier):
-    return _case()
+def strategy(tier, part=None):
+    return _case(part)
 
 
 def hydro_reference(M, R, T, Pl, mu):
@@ -78,9 +87,19 @@ def check_function(out, c):
     n = c['n']
     if c['spacing'] == 'log':
         lp = c['lp0'] - np.linspace(0.0, max(c['decades'], 1e-9 * n * 4), n + 1)
+    elif c['spacing'] == 'ulp':
+        # the thinnest slab there is: neighbouring levels a few units in the last place apart, still strictly decreasing
+        out.cls('levels:ulp-spaced')
+        pv = [10.0 ** c['lp0']]
+        for k in c['ulps']:
+            x = pv[-1]
+            for _ in range(k):
+                x = float(np.nextafter(x, 0.0))
+            pv.append(x)
+        lp = np.log10(np.array(pv))
     else:
         lp = c['lp0'] - np.concatenate([[0.0], np.cumsum(c['steps'])])
-    Pl = 10.0 ** lp
+    Pl = 10.0 ** lp if c['spacing'] != 'ulp' else np.array(pv)
     if not np.all(np.diff(Pl) < 0):
         out.cls('levels-not-representable')
         return
@@ -102,7 +121,8 @@ def check_function(out, c):
     out.applies('hydro-values')
     # log(P_i/P_{i+1}) of nearly equal levels carries a relative rounding error of eps/ln(ratio)
     lr = float(np.min(np.log(Pl[:-1] / Pl[1:])))
-    rt = 1e-10 + 8 * 2.3e-16 / lr
+    # (a difference of two logarithms is the same formula; its rounding error is eps*|ln P| instead of eps, and is allowed for)
+    rt = 1e-10 + 4 * 2.3e-16 * (2.0 + 2.0 * float(np.max(np.abs(np.log(Pl))))) / lr
     for name, a, b in (('altitude', z, zr), ('scaleheight', H, Hr), ('gravity', g, gr), ('thickness', dz, dzr)):
         if not close(a, b, rtol=rt, atol=1e-9 * abs(zr[-1]) * 1e-6):
             out.fail('hydro-values@' + name, 'max rel %.2e' % maxrel(a, b))
@@ -144,8 +164,23 @@ def check_model(out, c):
                 out.fail('array-order-independent', 'top-first listing with reverse=True gives other layers / levels than the surface-first listing')
         else:
             W.pressure = ArrayPressureProfile(arr.copy())
-        if w['temp']['kind'] != 'iso':
-            pass
+        if c.get('from_file'):
+            import os, tempfile
+            from taurex.data.profiles.pressure.filepressure import FilePressureProfile
+            out.cls('array:from-file' + (',top-first' if c.get('top_first') else ''))
+            unit, (col, skip) = c['from_file'], c['file_layout']
+            listed = (arr[::-1] if c.get('top_first') else arr) / (1e5 if unit == 'bar' else 1.0)
+            fd, fname = tempfile.mkstemp(suffix='.dat')
+            try:
+                with os.fdopen(fd, 'w') as f:
+                    for _ in range(skip):
+                        f.write('index pressure\n')
+                    for i, v in enumerate(listed):
+                        f.write(' '.join(['%d' % i] * col + ['%.17e' % v]) + '\n')
+                W.pressure = cut(out, 'construct@file-pressure', FilePressureProfile, filename=fname, usecols=col, skiprows=skip,
+                                 units=unit, reverse=bool(c.get('top_first')))
+            finally:
+                os.remove(fname)
     kw = {}
     m = cut(out, 'build-model', synth.make_model, W, c['family'], None, **kw)
     if nl >= 2:
@@ -167,8 +202,8 @@ def check_model(out, c):
         want = np.logspace(math.log10(W.pmax), math.log10(W.pmin), nl + 1)
         if not close(Pl, want, rtol=1e-12) or not close(P, np.sqrt(Pl[:-1] * Pl[1:]), rtol=1e-12):
             out.fail('levels@simple,values', 'levels are not log-spaced / layer pressure is not the geometric mean')
-    elif not np.array_equal(P, arr):
-        out.fail('levels@array,layers', 'layer pressures are not the supplied array')
+    elif not (np.array_equal(P, arr) if c.get('from_file') != 'bar' else close(P, arr, rtol=1e-14)):
+        out.fail('levels@array,layers%s' % (',from-file' if c.get('from_file') else ''), 'layer pressures are not the supplied array')
     # one value per layer, everywhere
     out.applies('one-per-layer')
     named = {
